@@ -1,8 +1,10 @@
 /-
-  Lemmas for C14, in five parts: covers, MergeUp, DDA (chain / termination), DDA (geometry), line strings.
+  Lemmas for C14, in six parts: covers, MergeUp, DDA (chain / termination), DDA (geometry), line strings,
+  unions / polygon boundary / vertex bound.
 -/
 import OrbProofs.C14Cover
 import OrbProofs.C14Merge
 import OrbProofs.C14Dda
 import OrbProofs.C14DdaGeom
 import OrbProofs.C14Line
+import OrbProofs.C14Unions
